@@ -19,7 +19,7 @@ for d in sorted(glob.glob('/verif/seeded/*')):
     conf = m.get('confirmed_by_us') or {}
     ok = conf.get('build_rc') == 0 and '0 tests failed' in (conf.get('tests') or '') and conf.get('demo_with_change_rc', 0) != 0 and conf.get('demo_without_change_rc') == 0
     if m.get('obsolete'):
-        caught = ['(obsolete since fix d3846c0: no longer breaks the property; was reported by ' + '; '.join(caught) + ')']
+        caught = ['(obsolete - see meta.json: a later root fix removed the mechanism; was reported by ' + '; '.join(caught) + ')']
     rows.append('| %s | %s | %s | %s | %s |' % (sid, summ.replace('|', '/'), needs.replace('|', '/'), '; '.join(caught), 'yes' if ok else 'NO'))
 table = '| id | change | needs | reported by | confirmed (builds, 124 tests pass, demo fails with / passes without) |\n|----|--------|-------|-------------|------|\n' + '\n'.join(rows)
 p = '/verif/DESIGN.md'
